@@ -406,7 +406,7 @@ def dynamic_half(ctx, viol, known, cov, ks):
     cov["race_build_s"] = round(time.time() - t0, 1)
     quick = ctx.tier == "quick"
     procs = [1, 2, 4, 16] if quick else [1, 2, 3, 4, 8, 16, 32]
-    iters = 1 if quick else 6
+    iters = 20 if quick else 60         # 20 is the tests' own default
     rounds = 1 if quick else 3
     jobs = []
     tests = {}
